@@ -170,6 +170,7 @@ type Run struct {
 	lateOps           []*OpRec
 	defaultsScribbled bool
 	file              *fileState
+	configDone        bool
 	reads             []simrt.ReadRecord
 	post              []func(*Result) // work to do on the result after the bubble has been left
 
@@ -405,6 +406,15 @@ func (r *Run) spawn(c *ClientSpec) {
 		r.clients++
 	}
 	r.sim.Spawn(c.Name, func() {
+		if c.Kind != "writer" && !r.configDone {
+			simrt.YieldWhen("await-config", func() bool { return r.configDone })
+		}
+		if r.d == nil && c.Kind != "writer" {
+			if counted {
+				r.finished++
+			}
+			return
+		}
 		switch c.Kind {
 		case "reporter":
 			r.reporter(c)
@@ -769,6 +779,13 @@ func (r *Run) buildSources() []dials.Source {
 }
 
 func (r *Run) params() dials.Params[CfgCore] {
+	if r.sc.NoGlobalCB {
+		return dials.Params[CfgCore]{
+			SkipInitialVerification:  r.sc.Skip,
+			DelayInitialVerification: r.sc.Delay,
+			CallGlobalCallbacksAfterVerificationEnabled: r.sc.Suppress,
+		}
+	}
 	return dials.Params[CfgCore]{
 		OnWatchedError:           r.onWatchedError,
 		OnNewConfig:              r.onNewConfig,
